@@ -41,8 +41,8 @@ Fixpoint keys_eqb (a b : list key) : bool :=
 Definition doc_eqb (a b : doc) : bool :=
   N.eqb (d_id a) (d_id b) && keys_eqb (d_keys a) (d_keys b) && N.eqb (d_ep a) (d_ep b) && N.eqb (d_h a) (d_h b).
 
-(* the code as found (plain overwrite) and after the fix: commit (a stored document is never replaced by a
-   different one) *)
+(* the code as found (the peer DID store and the key index overwrite) and after the two fix: commits (a stored
+   document is never replaced by a different one; a key stays linked to the DID it was first saved for) *)
 Inductive variant := AsIs | Fixed.
 
 (* ---------- peer DID store ---------- *)
@@ -106,11 +106,16 @@ Fixpoint kget (s : keyidx) (k : key) : option did :=
   | [] => None
   | (k', d) :: r => if N.eqb k k' then Some d else kget r k
   end.
-(* SaveDID(did, keys...) *)
-Fixpoint kput (s : keyidx) (d : did) (ks : list key) : keyidx :=
+(* SaveDID(did, keys...): the keys are linked one after the other.  As found: plain Put.  Fixed: a key already
+   linked to a different DID stays where it is and the call fails there (the keys before it are linked). *)
+Fixpoint kput (v : variant) (s : keyidx) (d : did) (ks : list key) : keyidx * bool :=
   match ks with
-  | [] => s
-  | k :: r => kput ((k, d) :: s) d r
+  | [] => (s, true)
+  | k :: r =>
+      match v, kget s k with
+      | Fixed, Some d' => if N.eqb d' d then kput v ((k, d) :: s) d r else (s, false)
+      | _, _ => kput v ((k, d) :: s) d r
+      end
   end.
 
 Definition invs := list (inv * key).
@@ -165,8 +170,9 @@ Definition set_th (a : agent) (n : ns) (t : th) (c : cid) : agent :=
   Agent (a_vdr a) (a_conns a) (((n, t), c) :: a_thmap a) (a_keyidx a) (a_invs a).
 Definition set_vdr (a : agent) (s : vdr) : agent :=
   Agent s (a_conns a) (a_thmap a) (a_keyidx a) (a_invs a).
-Definition set_keys (a : agent) (d : did) (ks : list key) : agent :=
-  Agent (a_vdr a) (a_conns a) (a_thmap a) (kput (a_keyidx a) d ks) (a_invs a).
+Definition set_keys (v : variant) (a : agent) (d : did) (ks : list key) : agent * bool :=
+  let '(s, ok) := kput v (a_keyidx a) d ks in
+  (Agent (a_vdr a) (a_conns a) (a_thmap a) s (a_invs a), ok).
 Definition with_state (r : conn) (s : st) : conn :=
   Conn (c_ns r) (c_th r) s (c_my r) (c_their r) (c_rk r).
 
@@ -174,14 +180,14 @@ Definition with_state (r : conn) (s : st) : conn :=
 Definition new_my (v : variant) (a : agent) (my : doc) : option agent :=
   match vput v (a_vdr a) my with
   | None => None
-  | Some s => Some (set_keys (set_vdr a s) (d_id my) (d_keys my))
+  | Some s => let '(a1, ok) := set_keys v (set_vdr a s) (d_id my) (d_keys my) in if ok then Some a1 else None
   end.
 
 (* SaveDIDByResolving(their, fallback keys) at the completed state *)
-Definition save_by_resolving (a : agent) (their : did) (fallback : list key) : agent :=
+Definition save_by_resolving (v : variant) (a : agent) (their : did) (fallback : list key) : agent * bool :=
   match vget (a_vdr a) their with
-  | Some dc => set_keys a (d_id dc) (d_keys dc)
-  | None => set_keys a their fallback
+  | Some dc => set_keys v a (d_id dc) (d_keys dc)
+  | None => set_keys v a their fallback
   end.
 
 (* getDIDs: both envelope keys are looked up in the key index; the handler is called unless only the
@@ -267,8 +273,9 @@ Definition step (v : variant) (a : agent) (i : input) : agent * list out :=
                       | [] => (a2, [])
                       | _ =>
                           let a3 := set_conn a2 c (Conn My t SCompleted (c_my r) d (c_rk r)) in
-                          (save_by_resolving a3 d (fallback (c_rk r)),
-                           [OSend (d_ep dc) (d_keys dc) (MComplete p t)])
+                          (* the key index is written before the action: if that fails the complete is not sent *)
+                          let '(a4, ok) := save_by_resolving v a3 d (fallback (c_rk r)) in
+                          (a4, if ok then [OSend (d_ep dc) (d_keys dc) (MComplete p t)] else [])
                       end
                   end
               end
@@ -284,7 +291,7 @@ Definition step (v : variant) (a : agent) (i : input) : agent * list out :=
           | None => (a, [OReject])
           | Some r =>
               let a1 := set_conn a c (with_state r SCompleted) in
-              (save_by_resolving a1 (c_their r) (fallback (c_rk r)), [])
+              let '(a2, _) := save_by_resolving v a1 (c_their r) (fallback (c_rk r)) in (a2, [])
           end
       end
   | IRecv (MPing fk tk) _ _ => (a, [dispatch a fk tk])
@@ -293,7 +300,9 @@ Definition step (v : variant) (a : agent) (i : input) : agent * list out :=
       (* HandleInboundPeerDID: before anything else, for any message type; then the message is dispatched *)
       match vput v (a_vdr a) dc with
       | None => (a, [OReject])
-      | Some s => let a1 := set_keys (set_vdr a s) (d_id dc) (d_keys dc) in (a1, [dispatch a1 fk tk])
+      | Some s =>
+          let '(a1, ok) := set_keys v (set_vdr a s) (d_id dc) (d_keys dc) in
+          (a1, [if ok then dispatch a1 fk tk else OReject])
       end
   end.
 
@@ -311,3 +320,43 @@ Definition record (a : agent) (c : cid) : option conn := cget (a_conns a) c.
 
 Definition completed_at (a : agent) (c : cid) : bool :=
   match record a c with Some r => st_eqb (c_state r) SCompleted | None => false end.
+
+(* ---------- vocabulary of the theorems ---------- *)
+(* the connection id an input makes the agent draw (it names a new record) *)
+Definition input_cid (i : input) : option cid :=
+  match i with
+  | IAcceptInv _ _ _ _ c _ _ => Some c
+  | IRecv (MRequest _ _ _ _ _) c _ => Some c
+  | _ => None
+  end.
+
+(* the input is addressed to thread t in namespace n (requests/completes: their; invitations/responses: my) *)
+Definition touches (n : ns) (t : th) (i : input) : bool :=
+  match i with
+  | IAcceptInv _ _ _ _ _ t' _ => ns_eqb n My && N.eqb t t'
+  | IRecv (MRequest _ t' _ _ _) _ _ => ns_eqb n Their && N.eqb t t'
+  | IRecv (MResponse _ t' _ _ _) _ _ => ns_eqb n My && N.eqb t t'
+  | IRecv (MComplete _ t') _ _ => ns_eqb n Their && N.eqb t t'
+  | _ => false
+  end.
+
+(* an input that belongs to something else than the exchange on thread (n, t) with record c: any message of any
+   other thread (other exchanges running at the same time, anything a third party sends), any local operation;
+   connection ids are drawn by the agent itself and do not repeat *)
+Definition foreign (n : ns) (t : th) (c : cid) (i : input) : Prop :=
+  touches n t i = false /\ input_cid i <> Some c.
+
+(* connection id c is not in use *)
+Definition unused (a : agent) (c : cid) : Prop :=
+  cget (a_conns a) c = None /\ forall n t, tget (a_thmap a) n t <> Some c.
+
+(* thread (n, t) is the thread of record c, and of no other record *)
+Definition owns (a : agent) (n : ns) (t : th) (c : cid) : Prop :=
+  tget (a_thmap a) n t = Some c /\ forall n' t', tget (a_thmap a) n' t' = Some c -> n' = n /\ t' = t.
+
+(* the ids drawn along a run are new when they are drawn *)
+Fixpoint fresh_ids (v : variant) (a : agent) (is : list input) : Prop :=
+  match is with
+  | [] => True
+  | i :: r => (forall c, input_cid i = Some c -> cget (a_conns a) c = None) /\ fresh_ids v (fst (step v a i)) r
+  end.
